@@ -515,7 +515,32 @@ type CountCtx struct {
 	After  int // number of Err() calls after the one that first reported Kind
 	Fired  bool
 	OnFire func() // called once, inside the poll that fires
-	done   chan struct{}
+	// Inner, when set, answers Value(): the context then looks like a hand-written wrapper around a standard context
+	// (context.Cause and friends find that context's cancellation state through Value, not through Err)
+	Inner context.Context
+	done  chan struct{}
+}
+
+// ErrCause is the cause given to the standard context inside a "cause" flavoured counting context.
+var ErrCause = errors.New("caller's own cause")
+
+// NewCountCtxFlavour builds a counting context of one of three flavours: "" (plain), "cause" (wraps a
+// context.WithCancelCause context that is cancelled with ErrCause at the moment the counting context fires; Err() keeps
+// answering kind, as the standard context does) and "live-parent" (wraps a standard cancel context that is never
+// cancelled: only Err() of the wrapper says done).
+func NewCountCtxFlavour(fireAt int, kind error, flavour string) *CountCtx {
+	c := NewCountCtx(fireAt, kind)
+	switch flavour {
+	case "cause":
+		in, cancel := context.WithCancelCause(context.Background())
+		c.Inner = in
+		c.OnFire = func() { cancel(ErrCause) }
+	case "live-parent":
+		in, cancel := context.WithCancel(context.Background())
+		_ = cancel // never cancelled; released with the process
+		c.Inner = in
+	}
+	return c
 }
 
 // NewCountCtx builds a counting context.
@@ -551,4 +576,9 @@ func (c *CountCtx) Err() error {
 	return c.Kind
 }
 
-func (c *CountCtx) Value(key any) any { return nil }
+func (c *CountCtx) Value(key any) any {
+	if c.Inner != nil {
+		return c.Inner.Value(key)
+	}
+	return nil
+}
